@@ -49,8 +49,8 @@ OUTSIDE = ['no_kwargs functions (dict, set(dict,...), switch) and non-determinis
 ASSUMPTIONS = ['keyword name of a parameter = alias written in its @specs.parameter decorator, else the python name with '
                'trailing underscores stripped and snake_case -> camelCase (recomputed by the harness, not read from the '
                'definition)',
-               'an empty slot in the *args region has no default to stand for: such a call must not hand the internal '
-               'marker to the payload (asserted as: the finalised result contains no <NoValue> marker)',
+               'an empty slot in the *args region has no default to stand for: such a call matches nothing (asserted as '
+               'NoMatchingFunction/MethodException; before the fix the payload received the internal <NoValue> marker)',
                'reference binder = Python binding rules on the signature without hidden parameters; an empty slot '
                'requires a default and stands for it',
                'engine options limitIterators=30, memoryQuota=500000 so that endless results end in the same error class']
@@ -127,7 +127,8 @@ def agree(got, base, expect):
             return False
         return same_value(got[1], base[1]) if got[0] == 'ok' else got[1] == base[1]
     if expect == 'no-marker':
-        return got[0] == 'err' or not has_marker(got[1])
+        # an empty slot in the *args region has no default to stand for: the call matches nothing
+        return got[0] == 'err' and got[1] in ('NoMatchingFunctionException', 'NoMatchingMethodException')
     return got == ('err', expect)
 
 
@@ -316,7 +317,7 @@ def synth(ndef: int, has_var: bool, ko: int, has_varkw: bool, hidden: int, nargs
         if exp == 'SKIP-IN-VARARGS':
             if F13 in KNOWN and not H.P('only_f13'):
                 return True
-            ok = got is None or (isinstance(got, dict) and not has_marker(got)) or (isinstance(got, str))
+            ok = got is None                       # no default to stand for: no match
         elif H.P('only_f13'):
             return True
         else:
